@@ -418,6 +418,11 @@ class Inliner(object):
                 self.inlined_fns.add(g.fq)
                 return pre + conv
             var = '%s_result' % g.name.strip('_')
+            k = 2
+            while var in caller_names:
+                var = '%s_result%d' % (g.name.strip('_'), k)
+                k += 1
+            caller_names.add(var)
             all_rets = [x for b in body for x in ast.walk(b) if isinstance(x, ast.Return)]
             if body and isinstance(body[-1], ast.Return) and len(all_rets) == 1 and body[-1].value is not None:
                 # single trailing return: the call *is* that expression, evaluated after the helper's statements
